@@ -100,6 +100,45 @@ Theorem C14_reload_loop_locked_tasks : forall (locks : list tid) (fuel : nat) (s
 Proof. exact run_phases_l_locked. Qed.
 Print Assumptions C14_reload_loop_locked_tasks.
 
+(* ------------------------------------------------------------------ (b'') `jug sleep-until`
+   [sleep_until fuel st incs p] (Model/Loader.v) is SleepUntilCommand.run: load; wait - one sleep per failed poll,
+   during which the other workers add [incs]'s next element to the store - until every loaded task has a result;
+   if the load stopped at a barrier()/bvalue() load again and wait again; otherwise exit.  The reload loop with
+   "wait" for "execute".  Whatever the others write and in whatever order: it exits only when the jugfile, loaded
+   against the store as it is at that moment, runs to its end with every task stored - `jug check` would say 0 -
+   (tasks behind a barrier, compounds that collapsed in between included), and it loses nothing on the way. *)
+Theorem C14_sleep_until_exits_only_when_complete :
+  forall (fuel : nat) (st : store) (incs : list store) (p : jprog) (st' : store) (sleeps loads : nat),
+  sleep_until fuel st incs p = Some (st', sleeps, loads) ->
+  l_hasbarrier (load st' p) = false /\ check st' p = 0 /\ extends st st'.
+Proof. exact sleep_until_complete. Qed.
+Print Assumptions C14_sleep_until_exits_only_when_complete.
+
+(* the fact behind it: a complete load stays complete when the store grows - expanded compounds collapse,
+   barriers stay open, bvalue returns the same values *)
+Theorem C14_complete_load_stays_complete : forall (p : jprog) (st st' : store),
+  extends st st' -> l_hasbarrier (load st p) = false ->
+  (forall t, In t (l_tasks (load st p)) -> stored st' (tid_of t) = true) ->
+  l_hasbarrier (load st' p) = false /\ check st' p = 0.
+Proof. exact load_grown. Qed.
+Print Assumptions C14_complete_load_stays_complete.
+
+Theorem C14_sleep_until_step : forall (f : nat) (st : store) (incs : list store) (p : jprog),
+  sleep_until (S f) st incs p =
+  let l := load st p in
+  match wait_all (l_tasks l) st incs with
+  | None => None
+  | Some (st1, incs1, n) =>
+      if l_hasbarrier l then
+        match sleep_until f st1 incs1 p with
+        | Some (s, n2, k) => Some (s, n + n2, S k)
+        | None => None
+        end
+      else Some (st1, n, 1)
+  end.
+Proof. exact sleep_until_step. Qed.
+Print Assumptions C14_sleep_until_step.
+
 (* ------------------------------------------------------------------ (c) a closed barrier and `jug check` *)
 (* [wf [] p]: Python scoping - an argument of a task, of bvalue or of a compound refers to a Task
    object created earlier and still visible (for every value a bvalue may return).
@@ -167,6 +206,20 @@ Example C14_nonvacuous :
    map tid_of (l_tasks (load st ex_prog)) = [1; 2; 3; 10; 6] /\ l_marks (load st ex_prog) = [1] /\
    l_hasbarrier (load st ex_prog) = false /\ check st ex_prog = 0%nat /\
    lookup st 6 = Some (VInt 20%Z) /\ lookup st 10 = Some (VTup [VInt 10%Z; VInt 10%Z])).
+Proof. vm_compute. repeat split; reflexivity. Qed.
+
+(* sleep-until on ex_prog while another worker stores 1 | 2 | 3, 5 | 10 | 6 (one group per sleep): 5 sleeps, 3 loads,
+   exit with everything stored; if the other worker stops after 10 it is still waiting (for 6, behind two barriers
+   and a collapsed compound); results arriving out of order (6 first) change nothing *)
+Definition ex_incs : list store :=
+  [[(1, VInt 2%Z)]; [(2, VInt 4%Z)]; [(3, VInt 5%Z); (5, VInt 10%Z)]; [(10, VTup [VInt 10%Z; VInt 10%Z])]; [(6, VInt 20%Z)]].
+Example C14_nonvacuous_sleep_until :
+  (match sleep_until 6%nat [] ex_incs ex_prog with Some (s, n, k) => Some (map fst s, n, k) | None => None end
+   = Some ([6; 10; 3; 5; 2; 1], 5%nat, 3%nat)) /\
+  sleep_until 6%nat [] (firstn 4 ex_incs) ex_prog = None /\
+  (match sleep_until 6%nat [(1, VInt 2%Z); (2, VInt 4%Z)]
+         [[(6, VInt 20%Z)]; [(3, VInt 5%Z); (5, VInt 10%Z)]; [(10, VTup [VInt 10%Z; VInt 10%Z])]] ex_prog
+   with Some (s, n, k) => Some (map fst s, n, k) | None => None end = Some ([10; 3; 5; 6; 1; 2], 3%nat, 2%nat)).
 Proof. vm_compute. repeat split; reflexivity. Qed.
 
 Example C14_nonvacuous_wf : wf [] ex_prog.
